@@ -36,6 +36,8 @@ func runC12(c *core.Ctx, r *core.Reporter) {
 	c12initform(c, r)
 	c12unbound(c, r)
 	c12slotkey(c, r)
+	// "typep, class-of and method applicability all use that same precedence list": nil
+	c10nilprec(c, r, "C12.nilprec")
 }
 
 // c12copy: the precedence list is read where it is needed, never cached somewhere else.
